@@ -182,6 +182,9 @@ func checkC09(c *Ctx, r *Report) {
 
 	// ---- C09.f one shared serial provider
 	checkSharedProvider(c, r, "C09.f")
+
+	// every element filter in these packages is a reviewed one
+	ruleSkipInventory(c, r, "C09.c", loadSkipTable(c.VerifDir), 3, "core/pipeline", "generator/routes")
 }
 
 // checkImportAliases: "Param%d%s" / "Response%d%s" in pipeline.appendRouteImports vs the
